@@ -44,8 +44,24 @@ Definition gcopy (v v' : obj) : Prop :=
   | OEnumV _ _ _ _ _, OEnumV _ _ _ _ _ => v' = v
   | _, _ => False
   end.
+(* the type reference of v' has the wrappers of the source member's and names
+   the type the source member's reference names (in the source's heap) *)
+Definition stname (o : oid) : option str :=
+  match src o with Some (OType n _ _ _ _ _ _) => Some n | _ => None end.
+Definition oty (v : obj) : option tref :=
+  match v with
+  | OField _ _ ty _ _ _ _ _ _ | OInput _ _ _ ty _ _ _ => Some ty
+  | _ => None
+  end.
+Definition tylk (M : mem) (vs v' : obj) : Prop :=
+  match oty vs, oty v' with
+  | Some ts, Some ty =>
+      ref_wrappers ty = ref_wrappers ts /\ forall nm, stname (unwrap ts) = Some nm -> tname M (unwrap ty) = Some nm
+  | None, None => True
+  | _, _ => False
+  end.
 Definition desc (M : mem) (y s : oid) : Prop :=
-  exists vs vy, src s = Some vs /\ mget M y = Some vy /\ gcopy vs vy.
+  exists vs vy, src s = Some vs /\ mget M y = Some vy /\ gcopy vs vy /\ tylk M vs vy.
 Definition sargs (s : oid) : list oid :=
   match src s with Some (OField _ _ _ args _ _ _ _ _) => args | _ => [] end.
 Definition mdesc (M : mem) (y s : oid) : Prop :=
@@ -58,9 +74,34 @@ Definition tdesc (M : mem) (n : str) (o t : oid) : Prop :=
 
 (* memory steps that keep the attributes and the argument list of every
    existing member object *)
+Definition tykeep (M' : mem) (v v' : obj) : Prop :=
+  match oty v, oty v' with
+  | Some ty, Some ty' => ty' = ty \/ (ref_wrappers ty' = ref_wrappers ty /\ same_name M' (unwrap ty) (unwrap ty'))
+  | None, None => True
+  | _, _ => False
+  end.
 Definition keepm (M M' : mem) : Prop :=
+  (forall o n, tname M o = Some n -> tname M' o = Some n) /\
   forall y v, mget M y = Some v -> (forall n k d ms ifs r ds, v <> OType n k d ms ifs r ds) ->
-    exists v', mget M' y = Some v' /\ same_attrs v v'.
+    exists v', mget M' y = Some v' /\ same_attrs v v' /\ tykeep M' v v'.
+
+Lemma tylk_fwd M M' vs v :
+  (forall o n, tname M o = Some n -> tname M' o = Some n) -> tylk M vs v -> tylk M' vs v.
+Proof.
+  intros Hn. unfold tylk. destruct (oty vs); destruct (oty v); auto.
+  intros (A & B). split; [assumption|]. intros nm C. apply Hn. apply B. exact C.
+Qed.
+Lemma tylk_oty M vs v v' : oty v' = oty v -> tylk M vs v -> tylk M vs v'.
+Proof. unfold tylk. intros ->. auto. Qed.
+Lemma tylk_keep M' vs v v' : tylk M' vs v -> tykeep M' v v' -> tylk M' vs v'.
+Proof.
+  unfold tylk, tykeep. destruct (oty vs) as [ts|]; destruct (oty v) as [ty|]; destruct (oty v') as [ty'|]; auto; try contradiction.
+  intros (A & B) [->|(D & nm2 & E & F)].
+  - split; assumption.
+  - split; [congruence|]. intros nm C. rewrite (B nm C) in E. congruence.
+Qed.
+Lemma tykeep_refl M v : tykeep M v v.
+Proof. unfold tykeep. destruct (oty v); auto. Qed.
 
 Lemma gcopy_same vs v v' : gcopy vs v -> same_attrs v v' -> gcopy vs v'.
 Proof.
@@ -75,13 +116,14 @@ Proof. destruct vs, v; simpl; try contradiction; intros _ ? ? ? ? ? ? ?; discrim
 
 Lemma desc_keep M M' y s : keepm M M' -> desc M y s -> desc M' y s.
 Proof.
-  intros K (vs & vy & Hs & Hy & Hc). destruct (K y vy Hy (gcopy_nontype _ _ Hc)) as (v' & Hy' & Ha).
-  exists vs, v'. split; [assumption|]. split; [assumption|eapply gcopy_same; eauto].
+  intros [Kn K] (vs & vy & Hs & Hy & Hc & Hl). destruct (K y vy Hy (gcopy_nontype _ _ Hc)) as (v' & Hy' & Ha & Ht).
+  exists vs, v'. split; [assumption|]. split; [assumption|]. split; [eapply gcopy_same; eauto|].
+  eapply tylk_keep; [eapply tylk_fwd; eauto|exact Ht].
 Qed.
 
 Lemma oargs_keep M M' y s : keepm M M' -> desc M y s -> oargs M' y = oargs M y.
 Proof.
-  intros K (vs & vy & Hs & Hy & Hc). destruct (K y vy Hy (gcopy_nontype _ _ Hc)) as (v' & Hy' & Ha).
+  intros [Kn K] (vs & vy & Hs & Hy & Hc & Hl). destruct (K y vy Hy (gcopy_nontype _ _ Hc)) as (v' & Hy' & Ha & _).
   unfold oargs. rewrite Hy, Hy'. destruct vy, v'; simpl in Ha; try contradiction; try reflexivity.
   destruct Ha as (_ & _ & -> & _). reflexivity.
 Qed.
@@ -96,19 +138,32 @@ End Desc.
 
 (* the three kinds of memory steps of the development keep member objects *)
 Lemma ext_keepm tm M M' : ext tm M M' -> keepm M M'.
-Proof. intros He y v Hy _. exact (ext_keeps tm M M' He y v Hy). Qed.
+Proof.
+  intros He. split; [intros o n; apply (ext_tname tm); exact He|]. intros y v Hy _.
+  destruct (ext_keeps tm M M' He y v Hy) as (v' & Hy' & Ha). exists v'. split; [assumption|]. split; [assumption|].
+  destruct (proj2 He y v Hy) as (v2 & Hy2 & Hr). rewrite Hy' in Hy2. inversion Hy2; subst v2.
+  destruct v, v'; simpl in Hr; try contradiction; unfold tykeep; simpl; auto.
+  - destruct Hr as (_ & [->|(_ & A & B)] & _); [left; reflexivity|right; split; assumption].
+  - destruct Hr as ([->|(_ & A & B)] & _); [left; reflexivity|right; split; assumption].
+Qed.
 
 Lemma same_attrs_refl' v : same_attrs v v.
 Proof. destruct v; simpl; repeat split; auto. Qed.
 
 Lemma tnr_keepm M M' : tnr M M' -> keepm M M'.
 Proof.
-  intros (_ & _ & P) y v Hy Hnt. exists v. split; [|apply same_attrs_refl'].
+  intros T. split; [intros o n; apply tnr_tname; exact T|]. destruct T as (_ & _ & P).
+  intros y v Hy Hnt. exists v. split; [|split; [apply same_attrs_refl'|apply tykeep_refl]].
   apply P; [assumption|]. unfold tyi. rewrite Hy. destruct v; try reflexivity. exfalso. eapply Hnt; reflexivity.
 Qed.
 
 Lemma pres_keepm M M' : StoreVisM.pres M M' -> keepm M M'.
 Proof. intros P. apply tnr_keepm. apply pres_tnr. exact P. Qed.
+
+Lemma tname_vpres a b o n : StoreVisM.pres a b -> tname a o = Some n -> tname b o = Some n.
+Proof.
+  intros P. unfold tname. destruct (mget a o) as [v|] eqn:Hv; [|discriminate]. rewrite (proj2 P _ _ Hv). auto.
+Qed.
 
 (* map_and_filter: inputs descending (Din) from some of [srcs], in order, give
    outputs descending (Dout) from some of [srcs], in order *)
@@ -218,9 +273,10 @@ Proof.
       assert (Hy : mget m2 (m_next m1) = Some (OField nf py ty1 args' d dp rs sb ds)).
       { unfold mget, m2; simpl. rewrite N.eqb_refl. reflexivity. }
       split.
-      + destruct Hd as [(vs & vy & Hs & Hvy & Hc) _]. rewrite Hv in Hvy. inversion Hvy; subst vy.
-        exists vs, (OField nf py ty1 args' d dp rs sb ds). split; [assumption|]. split; [exact Hy|].
-        destruct vs; simpl in Hc; try contradiction. simpl. exact Hc.
+      + destruct (desc_keepE _ _ _ _ He1 (proj1 Hd)) as (vs & vy & Hs & Hvy & Hc & Hl). rewrite Hg1 in Hvy. inversion Hvy; subst vy.
+        exists vs, (OField nf py ty1 args' d dp rs sb ds). split; [assumption|]. split; [exact Hy|]. split.
+        * destruct vs; simpl in Hc; try contradiction. simpl. exact Hc.
+        * eapply tylk_fwd; [intros o n; apply (ext_tname tm); exact He2|]. eapply tylk_oty; [|exact Hl]. reflexivity.
       + unfold oargs. rewrite Hy. eapply subseq_impl; [|exact Hq1]. intros a b. apply desc_keepE. exact He2. }
   destruct Hbase as (Hi2 & He2 & y & -> & Hy).
   destruct (heal_member_desc (mdesc src g) _ _ _ _ _ (fun a b y0 t K => mdesc_keep src g a b y0 t K) Hi2 Hy H) as (Hi' & He & Hr).
@@ -429,9 +485,11 @@ Proof.
       assert (Hy2 : mget m2 (m_next m1) = Some (OField nf py ty args' d dp rs sb ds)).
       { unfold mget, m2; simpl. rewrite N.eqb_refl. reflexivity. }
       split.
-      + destruct Hd as [(vs & vy & Hs & Hvy & Hc) _]. rewrite Hv in Hvy. inversion Hvy; subst vy.
-        exists vs, (OField nf py ty args' d dp rs sb ds). split; [assumption|]. split; [exact Hy2|].
-        destruct vs; simpl in Hc; try contradiction. simpl. exact Hc.
+      + destruct Hd as [(vs & vy & Hs & Hvy & Hc & Hl) _]. rewrite Hv in Hvy. inversion Hvy; subst vy.
+        exists vs, (OField nf py ty args' d dp rs sb ds). split; [assumption|]. split; [exact Hy2|]. split.
+        * destruct vs; simpl in Hc; try contradiction. simpl. exact Hc.
+        * eapply tylk_fwd; [intros o0 n0 A; eapply tname_vpres; [exact R2|]; eapply tname_vpres; [exact R1|exact A]|].
+          eapply tylk_oty; [|exact Hl]. reflexivity.
       + unfold oargs. rewrite Hy2. eapply subseq_impl; [|exact Hq1]. intros a b. apply D_pres. exact R2. }
   destruct Hbase as (A & B & C). destruct ro as [y|]; unfold hid in H; inversion H; subst.
   - split; [assumption|]. split; [assumption|]. intros z Hz. inversion Hz; subst. apply C. reflexivity.
@@ -715,7 +773,7 @@ Lemma camel_member_desc m x s m' r :
   vinv m -> Di m x s -> camel_member c m x = Some (m', r) ->
   vinv m' /\ vpres m m' /\ exists y, r = Some y /\ Dc m' y s /\ oargs m' y = oargs m x.
 Proof.
-  intros Hi (vs & vx & Hs & Hx & Hc) H. unfold camel_member in H. rewrite Hx in H.
+  intros Hi (vs & vx & Hs & Hx & Hc & Hl) H. unfold camel_member in H. rewrite Hx in H.
   destruct vx as [|n py ty args d dp rs sb ds|a n py ty df d ds| |]; try discriminate.
   - destruct (pres_alloc m (OField (c n) py ty args d dp rs sb ds) Hi) as (Hi2 & R2).
     unfold alloc in H, Hi2, R2. simpl in Hi2, R2. inversion H; subst m' r.
@@ -723,8 +781,9 @@ Proof.
     assert (Hy : mget (MkMem ((m_next m, OField (c n) py ty args d dp rs sb ds) :: m_heap m) (N.succ (m_next m))) (m_next m)
                  = Some (OField (c n) py ty args d dp rs sb ds)) by (unfold mget; simpl; rewrite N.eqb_refl; reflexivity).
     split.
-    + exists vs, (OField (c n) py ty args d dp rs sb ds). split; [assumption|]. split; [exact Hy|].
-      destruct vs; simpl in Hc; try contradiction. simpl. destruct Hc as (-> & Hrest). split; [reflexivity|exact Hrest].
+    + exists vs, (OField (c n) py ty args d dp rs sb ds). split; [assumption|]. split; [exact Hy|]. split.
+      * destruct vs; simpl in Hc; try contradiction. simpl. destruct Hc as (-> & Hrest). split; [reflexivity|exact Hrest].
+      * eapply tylk_fwd; [intros o0 n0 A; eapply tname_vpres; [exact R2|exact A]|]. eapply tylk_oty; [|exact Hl]. reflexivity.
     + unfold oargs. rewrite Hy, Hx. reflexivity.
   - destruct (pres_alloc m (OInput a (c n) py ty df d ds) Hi) as (Hi2 & R2).
     unfold alloc in H, Hi2, R2. simpl in Hi2, R2. inversion H; subst m' r.
@@ -732,8 +791,9 @@ Proof.
     assert (Hy : mget (MkMem ((m_next m, OInput a (c n) py ty df d ds) :: m_heap m) (N.succ (m_next m))) (m_next m)
                  = Some (OInput a (c n) py ty df d ds)) by (unfold mget; simpl; rewrite N.eqb_refl; reflexivity).
     split.
-    + exists vs, (OInput a (c n) py ty df d ds). split; [assumption|]. split; [exact Hy|].
-      destruct vs; simpl in Hc; try contradiction. simpl. destruct Hc as (-> & -> & Hrest). split; [reflexivity|split; [reflexivity|exact Hrest]].
+    + exists vs, (OInput a (c n) py ty df d ds). split; [assumption|]. split; [exact Hy|]. split.
+      * destruct vs; simpl in Hc; try contradiction. simpl. destruct Hc as (-> & -> & Hrest). split; [reflexivity|split; [reflexivity|exact Hrest]].
+      * eapply tylk_fwd; [intros o0 n0 A; eapply tname_vpres; [exact R2|exact A]|]. eapply tylk_oty; [|exact Hl]. reflexivity.
     + unfold oargs. rewrite Hy, Hx. reflexivity.
 Qed.
 
@@ -769,10 +829,10 @@ Lemma camel_env_desc m x s m' r :
 Proof.
   intros Hi [[Hd Ha] Hse] H. unfold visit_env, hseq in H. simpl in H. unfold hid in H. inversion H; subst.
   split; [assumption|]. split; [apply pres_refl|]. intros y Hy. inversion Hy; subst.
-  destruct Hd as (vs & vy & Hs & Hvy & Hc). unfold src_enumv in Hse. rewrite Hs in Hse.
+  destruct Hd as (vs & vy & Hs & Hvy & Hc & Hl). unfold src_enumv in Hse. rewrite Hs in Hse.
   destruct vs as [| | |en ev ed edp eds|]; try contradiction. destruct vy; simpl in Hc; try contradiction.
   inversion Hc; subst.
-  split; [exists (OEnumV en ev ed edp eds), (OEnumV en ev ed edp eds); split; [assumption|split; [assumption|reflexivity]]|].
+  split; [exists (OEnumV en ev ed edp eds), (OEnumV en ev ed edp eds); split; [assumption|split; [assumption|split; [reflexivity|exact I]]]|].
   unfold oargs. rewrite Hvy. apply subseq_nil_l.
 Qed.
 
@@ -803,9 +863,11 @@ Proof.
       assert (Hy2 : mget m2 (m_next m1) = Some (OField nf py ty args' d dp rs sb ds)).
       { unfold mget, m2; simpl. rewrite N.eqb_refl. reflexivity. }
       split.
-      + destruct Hya as (vs & vy & Hs & Hvy & Hc). rewrite Hv in Hvy. inversion Hvy; subst vy.
-        exists vs, (OField nf py ty args' d dp rs sb ds). split; [assumption|]. split; [exact Hy2|].
-        destruct vs; simpl in Hc; try contradiction. simpl. exact Hc.
+      + destruct Hya as (vs & vy & Hs & Hvy & Hc & Hl). rewrite Hv in Hvy. inversion Hvy; subst vy.
+        exists vs, (OField nf py ty args' d dp rs sb ds). split; [assumption|]. split; [exact Hy2|]. split.
+        * destruct vs; simpl in Hc; try contradiction. simpl. exact Hc.
+        * eapply tylk_fwd; [intros o0 n0 A; eapply tname_vpres; [exact R2|]; eapply tname_vpres; [exact R1|exact A]|].
+          eapply tylk_oty; [|exact Hl]. reflexivity.
       + unfold oargs. rewrite Hy2. eapply subseq_impl; [|exact Hq1]. intros a b. apply Dc_pres. exact R2. }
   destruct Hbase as (A & B & C). destruct ro as [y|]; unfold hid in H; inversion H; subst.
   - split; [assumption|]. split; [eapply pres_trans; eauto|]. intros z Hz. inversion Hz; subst. apply C. reflexivity.
